@@ -23,27 +23,33 @@ macro_rules! gen_for {
             let dec: u32 = $DEC;
             let unit: $U = (10 as $U).pow(dec);
             // rate: 0, whole units per second, fractions of a unit, arbitrary
-            let rate: $U = match rng.below(10) {
+            let rate: $U = match rng.below(16) {
                 0 => 0,
                 1 | 2 => unit.wrapping_mul(rng.range(1, 1000) as $U),
                 3 | 4 => unit / (rng.range(1, 1000) as $U),
                 5 => unit + rng.below(3) as $U - 1,
                 6 => rng.below(1000) as $U,
-                _ => rng.uint(w) as $U,
+                _ => { let r = rng.uint(w) as $U; if r < unit / 1_000_000 { (unit / 1_000_000) * (rng.range(1, 1000) as $U) } else { r } }
             };
             let pool0: $U = match rng.below(6) {
                 0 => rng.uint(w) as $U,
                 1 => <$U>::MAX - rng.below(3) as $U,
-                _ => (rng.uint(w / 2 + 8) as $U).max(1),
+                _ => (rng.uint(w / 2 + 8) as $U).saturating_add(1000),
             };
-            let minp: $U = match rng.below(8) {
-                0 => 0,
-                1 => pool0,
-                2 => pool0.saturating_add(rng.below(5) as $U),
-                3 => pool0.saturating_sub(rng.below(5) as $U),
-                4 => rng.uint(w) as $U,
+            let minp: $U = match rng.below(16) {
+                0 | 1 => 0,
+                2 => pool0,
+                3 => pool0.saturating_add(rng.below(5) as $U),
+                4 | 5 => pool0.saturating_sub(rng.below(5) as $U),
+                6 => rng.uint(w) as $U,
                 _ => pool0 / (rng.range(2, 50) as $U),
             };
+            // a slice of cases aimed at the failure branches (amount >= 2^(w-1), product overflow)
+            let big = rng.chance(1, 10);
+            let (rate, pool0, minp): ($U, $U, $U) = if big {
+                let r = if rng.chance(1, 2) { unit.wrapping_mul(rng.range(1, 8) as $U) } else { (rng.uint(w) as $U) | (1 << (w - 3)) };
+                (r, <$U>::MAX - (rng.uint(w - 2) as $U), rng.below(1000) as $U)
+            } else { (rate, pool0, minp) };
             let mut cfg = TestMarketConfig::<$U, $DEC>::default();
             cfg.position_impact_distribution_params = PositionImpactDistributionParams::builder()
                 .distribute_factor(rate)
@@ -75,7 +81,7 @@ macro_rules! gen_for {
             if pure_case {
                 let cur = pool0;
                 let excess = cur.saturating_sub(minp);
-                let dur = match rng.below(6) { 0 => 0, 1 => rng.uint(64) as u64, _ => dur_for(rng, excess, rate) };
+                let dur = match rng.below(if big { 3 } else { 8 }) { 0 => 0, 1 => rng.uint(64) as u64, _ => dur_for(rng, excess, rate) };
                 let r = m.pending_position_impact_pool_distribution_amount(dur);
                 let (rs, tag) = match &r {
                     Ok((d, n)) => (format!("(Ok ({}, {}))", z(d), z(n)),
@@ -87,11 +93,12 @@ macro_rules! gen_for {
                 return;
             }
 
-            let nops = rng.range(1, 12);
+            let nops = rng.range(1, 8);
             let mut ops: Vec<String> = vec![];
             let (mut n_part, mut n_cap, mut n_zero, mut n_fail) = (0, 0, 0, 0);
             for _ in 0..nops {
-                if rng.chance(1, 5) {
+                let at_floor = m.position_impact.long_amount <= minp;
+                if rng.chance(if at_floor { 3 } else { 1 }, 6) {
                     // the pool is refilled / drained by position actions between distributions
                     let cur = m.position_impact.long_amount;
                     let p: $U = match rng.below(5) {
@@ -107,14 +114,15 @@ macro_rules! gen_for {
                 }
                 let cur = m.position_impact.long_amount;
                 let excess = cur.saturating_sub(minp);
-                let adv: u64 = match rng.below(10) {
+                let adv: u64 = match rng.below(if big { 3 } else { 12 }) {
                     0 => 0,
-                    1 => rng.uint(64) as u64,
+                    1 => rng.uint(64) as u64 / 2,
                     2 => rng.below(100),
                     _ => {
                         // split the excess over a few steps, or hit it exactly / just over
                         let frac = match rng.below(4) { 0 => excess, 1 => excess / 3, 2 => excess / 2 + 1, _ => excess / (rng.range(1, 8) as $U) };
-                        dur_for(rng, frac, rate)
+                        let d = dur_for(rng, frac, rate);
+                        if d == 0 { rng.range(1, 1000) } else { d }
                     }
                 };
                 // the distribution clock may be ahead of `now` (saturating_sub -> 0)
